@@ -18,7 +18,7 @@ RULE = ('a seeded generator draws abstract messages (headers: SPIs, exchange typ
         'mutants of them); (4) unknown non-critical payloads are skipped leaving the others intact, unknown critical ones raise '
         'UnsupportedCriticalPayload, a chain that ends before / after the end of the data (truncation, trailing octets, last length +-k) raises '
         'InvalidSyntax whenever the reference says the chain does not tile the data; (5) to_dict()/json dump lists the payload types in order and '
-        'shows every decoded field (hex octets, decimal numbers, enum names, textual addresses) and never raises; (6) a Message object already serialised is edited (payload inserted first / appended / removed, Message ID, exchange type) and serialised again: exactly the reference encoding of the edited content. distinct = (payload type multiset, oracle).')
+        'shows every decoded field (hex octets, decimal numbers, enum names, textual addresses) and never raises; the dump as WRITTEN TO THE LOG by IkeSa.log_message at DEBUG level is read back from the record and must be the same JSON document, also when peer-chosen text fields (vendor ID, FQDN / RFC822 identity) hold %-directives, braces, quotes or backslashes; (6) a Message object already serialised is edited (payload inserted first / appended / removed, Message ID, exchange type) and serialised again: exactly the reference encoding of the edited content. distinct = (payload type multiset, oracle).')
 ASSUMPTIONS = ['only RFC-valid abstract content is generated for the encoder comparison (critical bit 0 on known payloads, reserved 0, transforms with at most the key-length attribute)',
                'the dump oracle accepts text or hex for textual identities / vendor ids']
 SHARDS = {'quick': 8, 'thorough': 16}
@@ -302,6 +302,18 @@ def run(ck):
             ck.violation('serialise-after-parse-changes-the-bytes', {'data': data, 'again': again}, case)
         # ---- (5) dump
         check_dump(ck, m, parsed, enc, case)
+        if i % 5 == 0:
+            logged_dump(ck, parsed, data, case)
+            # text fields chosen by the peer may hold anything, format directives included
+            sp = rng.choice(SPECIAL_TEXT)
+            m3 = dict(m, payloads=[{'type': 43, 'critical': False, 'data': sp}, {'type': 35, 'critical': False, 'idtype': rng.choice([2, 3]), 'data': b'host-' + sp + b'.example.org'}])
+            try:
+                p3 = M.Message.parse(codec.encode_clear(m3))
+            except FAMILY:
+                p3 = None
+            if p3 is not None:
+                logged_dump(ck, p3, codec.encode_clear(m3), {'abstract': m3})
+                ck.count('dump.logged_with_special_text')
         ck.nontrivial((sig, enc, 'ok'))
         if i % 1200 == 0:
             ck.sample({'payload_types': [p['type'] for p in m['payloads']], 'encrypted': enc, 'bytes': len(data), 'head': data[:48]})
@@ -333,6 +345,71 @@ def run(ck):
             ck.nontrivial(('mutant-fixed-point', len(v) // 32))
             if b1 != b2:
                 ck.violation('serialise-after-parse-is-not-idempotent', {'mutant': v, 'first': b1, 'second': b2}, {'mutant': v})
+
+
+class _LogTap:
+    def __init__(self):
+        import logging
+        self.logging = logging
+        self.records = []
+        tap = self
+
+        class H(logging.Handler):
+            def emit(self, record):
+                try:
+                    tap.records.append((record.levelno, record.getMessage()))
+                except Exception as ex:
+                    tap.records.append((record.levelno, None, f'{type(ex).__name__}: {ex}'))
+        self.h = H(level=logging.DEBUG)
+        self.root = logging.getLogger()
+        self.saved = (self.root.level, list(self.root.handlers), logging.root.manager.disable)
+        self.root.handlers = [self.h]
+        self.root.setLevel(logging.DEBUG)
+        logging.disable(logging.NOTSET)
+
+    def close(self):
+        self.root.handlers = self.saved[1]
+        self.root.setLevel(self.saved[0])
+        self.logging.disable(self.saved[2])
+
+
+_LOG_SA = []
+SPECIAL_TEXT = [b'50%_off', b'100%', b'%s', b'%d items', b'%(name)s', b'%%', b'a%2Fb', b'{}', b'{0}', b'{name}', b'back\\slash', b'quote"inside', b"single'quote", b'tab\there', b'$HOME', b'%n%n%n']
+
+
+def logged_dump(ck, parsed, data, case):
+    """The dump as it is WRITTEN TO THE LOG by the daemon (IkeSa.log_message at DEBUG level), not only as to_dict() returns it."""
+    if not _LOG_SA:
+        from vf import sim as S_
+        sim_, a_, b_ = S_.make_pair(1)
+        import ikesa as r_ikesa
+        conf_ = list(a_.conf.ike_configurations.values())[0]
+        _LOG_SA.append(r_ikesa.IkeSa(True, b'\0' * 8, conf_, conf_.my_addr, conf_.peer_addr))
+    tap = _LogTap()
+    try:
+        _LOG_SA[0].log_message(parsed, data, send=False)
+    except Exception as ex:
+        ck.violation(f'logging-a-message-raised-{type(ex).__name__}', {'exc': repr(ex)[:160]}, case)
+        return
+    finally:
+        tap.close()
+    ck.count('dump.logged')
+    broken = [r for r in tap.records if r[1] is None]
+    if broken:
+        ck.violation('log-record-of-a-message-could-not-be-formatted', {'error': broken[0][2]}, case)
+        return
+    dumps = [r[1] for r in tap.records if r[0] == 10 and '{' in r[1]]
+    if len(dumps) != 1:
+        ck.violation('no-dump-of-the-message-in-the-debug-log', {'records': [(r[0], r[1][:60]) for r in tap.records]}, case)
+        return
+    text = dumps[0][dumps[0].index('{'):]
+    try:
+        got = json.loads(text)
+    except ValueError:
+        ck.violation('dump-in-the-log-is-not-the-json-document-to_dict-returns', {'text': text[:200]}, case)
+        return
+    if got != json.loads(json.dumps(parsed.to_dict())):
+        ck.violation('dump-in-the-log-differs-from-what-to_dict-returns', {'logged': text[:300]}, case)
 
 
 def edited(ck, rng, m, objs, crypto, iv, i, case):
@@ -442,6 +519,8 @@ def verdict(ck):
     ck.floor('encrypted messages', c['encode.sk_compared'], 500)
     ck.floor('multi-proposal SAs with SPIs', c['payloads.multi_proposal_sa_with_spi'], 100)
     ck.floor('IPv6 selectors', c['payloads.ipv6_selectors'], 100)
+    ck.floor('dumps read back from the DEBUG log', c['dump.logged'], 1500)
+    ck.floor('... of messages whose text fields hold format directives and the like', c['dump.logged_with_special_text'], 600)
     ck.floor('dump fields checked', c['dump.fields_checked'], 20000)
     ck.floor('framing variants', sum(v for k, v in c.items() if k.startswith('framing.')), 5000)
     ck.floor('accepted mutants checked for idempotence', c['mutants.fixed_point_checked'], 500)
